@@ -129,6 +129,31 @@ int main(int argc, char **argv) {
     char sym[64]; snprintf(sym, sizeof sym, "_%s_chk", fname);
     fn = (cmpfn)dlsym(L, sym); if (!fn) { fprintf(stderr, "missing %s\n", sym); return 2; }
     int isb = strstr(fname, "bcmp") != NULL;
+    if (argc >= 6 && !strcmp(argv[5], "alldiff")) {
+        /* result only: regions of 2^n bytes in which EVERY byte pair differs by the same value x, with x * 2^n a multiple of 2^32 (and of 2^16, 2^8):
+         * an implementation that adds the differences up instead of or-ing them sees its sum wrap to zero.  x = 2^(32-n) for n <= 31, else x = 1 and 0xff. */
+        size_t nn = (size_t)1 << n, win = 32u << 20, span = (nn + win - 1) / win * win; long nviol = 0;
+        int xs[2] = { n <= 31 ? 1 << (32 - n) : 1, n <= 31 ? 0 : 0xff };
+        for (int xi = 0; xi < 2 && xs[xi]; xi++) {
+            int fa = memfd_create("a", 0), fb = memfd_create("b", 0);
+            if (fa < 0 || fb < 0 || ftruncate(fa, win) || ftruncate(fb, win)) { fprintf(stderr, "memfd failed\n"); return 2; }
+            unsigned char *wb = mmap(NULL, win, PROT_READ | PROT_WRITE, MAP_SHARED, fb, 0); memset(wb, xs[xi], win);
+            unsigned char *r1 = mmap(NULL, span, PROT_NONE, MAP_PRIVATE | MAP_ANONYMOUS | MAP_NORESERVE, -1, 0), *r2 = mmap(NULL, span, PROT_NONE, MAP_PRIVATE | MAP_ANONYMOUS | MAP_NORESERVE, -1, 0);
+            if (r1 == MAP_FAILED || r2 == MAP_FAILED) { fprintf(stderr, "cannot reserve %zu bytes twice\n", span); return 2; }
+            for (size_t off = 0; off < span; off += win) if (mmap(r1 + off, win, PROT_READ, MAP_SHARED | MAP_FIXED, fa, 0) == MAP_FAILED || mmap(r2 + off, win, PROT_READ, MAP_SHARED | MAP_FIXED, fb, 0) == MAP_FAILED) { fprintf(stderr, "window map failed\n"); return 2; }
+            size_t bos = nn > ((size_t)256 << 20) ? nn : (size_t)-1;      /* above RSIZE_MAX_MEM only with the object sizes known */
+            for (int sw = 0; sw < 2; sw++) {
+                int r = sw ? fn(r2, r1, nn, bos, bos) : fn(r1, r2, nn, bos, bos); int w = sw ? 1 : -1;
+                int bad = isb ? r == 0 : sgn(r) != w;
+                if (argc >= 7) printf("%s(%s, %s, n=2^%d) with every byte pair 0x00 / 0x%02x -> %d (expected %s)\n", fname, sw ? "b2" : "b1", sw ? "b1" : "b2", n, xs[xi], r, isb ? "non-zero" : w < 0 ? "negative" : "positive");
+                if (bad) { nviol++; if (nviol == 1 && argc < 7) printf("{\"t\":\"viol\",\"sig\":\"C19|%s|wrong-result|n=2^%d,every-byte-differs\",\"case\":\"%s %d alldiff -\"}\n", fname, n, fname, n); }
+            }
+            munmap(r1, span); munmap(r2, span); munmap(wb, win); close(fa); close(fb);
+        }
+        if (argc >= 7) { printf(nviol ? "VERDICT violation\n" : "VERDICT ok\n"); return nviol ? 1 : 0; }
+        printf("{\"t\":\"stat\",\"fn\":\"%s\",\"n\":%d,\"contents\":2,\"traced\":2,\"distinct_traces\":1,\"instructions\":0,\"data_accesses\":0,\"violating\":%ld}\n", fname, n, nviol);
+        return 0;
+    }
     if (argc >= 6 && !strcmp(argv[5], "huge")) {
         /* result only (no trace): regions of n = 2^31 + 4096 / 2^32 + 4096 bytes whose first difference lies in the last page.  The object sizes are
          * known to the library (unknown ones are limited to RSIZE_MAX_MEM).  Both regions are windows onto one 32 MiB memory file, the last window of the
